@@ -408,3 +408,47 @@ Lemma select_list_example :
             [Cell (VInt 1); Cell (VInt (-4)); Cell VNull; Missing; Cell (VInt 10)]
   = [Some (RNum 14); Some (RNum 10); Some (RNum (-10)); Some (RVal (VFlt 2))].
 Proof. vm_compute. reflexivity. Qed.
+
+(* ---------- an event without any column ({}): every input of the row is missing ----------
+   The row is still a row of the batch: the (empty-key) group is created, the state of every field other than
+   count( * ) is left as it is, count( * ) is fed with a 1.  A batch of such events only has a result row. *)
+Lemma ga_add_missing : forall f m g, m <> MStar ->
+  ga_add f m g Missing = Some (match g with Some s => s | None => init f end).
+Proof.
+  intros f m g Hm. unfold ga_add. destruct m; [congruence | |]; destruct g; reflexivity.
+Qed.
+Lemma fold_ga_add_missing : forall f m, m <> MStar ->
+  forall n s, fold_left (ga_add f m) (repeat Missing n) (Some s) = Some s.
+Proof.
+  intros f m Hm. induction n as [|n IH]; intros s; [reflexivity|].
+  cbn [repeat fold_left]. rewrite ga_add_missing by assumption. apply IH.
+Qed.
+Theorem batch_of_empty_events : forall f m n, m <> MStar ->
+  batch f m (repeat Missing (S n)) = Some (result f (init f)) /\
+  batch ACount MStar (repeat Missing (S n)) = Some (RNum (qnat (S n))).
+Proof.
+  intros f m n Hm. split.
+  - unfold batch, batch_from. cbn [repeat fold_left]. rewrite ga_add_missing by assumption.
+    rewrite fold_ga_add_missing by assumption. reflexivity.
+  - destruct (count_star_counts_rows ACount (repeat Missing (S n))) as [H _]; [discriminate|].
+    rewrite repeat_length in H. exact H.
+Qed.
+(* anywhere in a batch: the row changes nothing for the fields that read a column (count( * ) counts it:
+   count_star_counts_rows) *)
+Lemma fold_ga_add_some : forall f m cells g, (g <> None \/ cells <> []) ->
+  exists s, fold_left (ga_add f m) cells g = Some s.
+Proof.
+  intros f m. induction cells as [|c cells IH]; intros g H.
+  - destruct H as [H|H]; [|congruence]. destruct g as [s|]; [exists s; reflexivity | congruence].
+  - cbn [fold_left]. apply IH. left. unfold ga_add. discriminate.
+Qed.
+Theorem empty_event_in_batch : forall f m pre post, m <> MStar -> pre ++ post <> [] ->
+  batch f m (pre ++ Missing :: post) = batch f m (pre ++ post).
+Proof.
+  intros f m pre post Hm Hne. unfold batch, batch_from. f_equal.
+  rewrite !fold_left_app. cbn [fold_left]. rewrite ga_add_missing by assumption.
+  destruct pre as [|c pre].
+  - destruct post as [|d post]; [exfalso; apply Hne; reflexivity|]. reflexivity.
+  - destruct (fold_ga_add_some f m (c :: pre) None) as [s Hs]; [right; discriminate|].
+    rewrite Hs. reflexivity.
+Qed.
